@@ -45,7 +45,7 @@ type c03Case struct {
 	WOne     int       `json:"w_one"`
 	WRand    int       `json:"w_rand"`
 	Clients  int       `json:"clients"`
-	Listener string    `json:"listener"` // plain | tls | ratelimit
+	Listener string    `json:"listener"`       // plain | tls | ratelimit
 	ReadTO   int       `json:"read_timeout_s"` // HTTPProxyConfig.ReadTimeout (0 = shipped default: none)
 	ConnOpt  string    `json:"conn_opt"`       // Connection option on the CONNECT request: "" | close | keep-alive | Close, x-foo
 	TLS12    bool      `json:"tls12"`          // the scripted TLS peers (client of a TLS listener, HTTPS upstream) speak at most TLS 1.2
